@@ -374,6 +374,9 @@ func (e *Exec) collOptions(o Opts) moss.CollectionOptions {
 	if o.MergeOp {
 		co.MergeOperator = mergeOp{}
 	}
+	if e.c.Flags["failingMerge"] {
+		co.MergeOperator = failingMergeOp{}
+	}
 	return co
 }
 
